@@ -38,6 +38,7 @@ var m05Arbitrary bool            // the text handed to Unmarshal is arbitrary in
 var m05ArbErr bool               // ... and does not decode
 var m05ArbKid KeyID              // ... or decodes to this
 var m05ArbPresent map[string]bool
+var m05NullVer bool // the text carries "ver":null
 var m05PrinsName = "prins" // JSON name of the Principals field (re-read from the tags in m05Marshal)
 
 func m05FieldZero(k *KeyID, goName string) bool {
@@ -140,7 +141,8 @@ func m05Unmarshal(data []byte, v any) error {
 			case "TouchPolicy":
 				dst.TouchPolicy = TouchPolicy(vIteInt(pr, int(src.TouchPolicy), 0))
 			case "Version":
-				dst.Version = uint16(vIteInt(pr, int(src.Version), 0))
+				// absent or null: the destination keeps what it had
+				dst.Version = uint16(vIteInt(vAnd(pr, !m05NullVer), int(src.Version), int(dst.Version)))
 			default:
 				panic("m05: KeyID has a field the JSON model does not know: " + p[0])
 			}
@@ -278,6 +280,7 @@ func h05DecodeOnce(tag string) {
 	for _, n := range names {
 		m05ArbPresent[n] = vNondetBool(tag+"present-" + n)
 	}
+	m05NullVer = vNondetBool(tag + "ver-is-null")
 	text := "arbitrary"
 	if vIsNative() {
 		text = h05NativeText()
@@ -299,6 +302,7 @@ func h05DecodeOnce(tag string) {
 		return
 	}
 	vAssert(k.Version == 1, "C05.decode-version-supported")
+	vAssert(vAnd(!m05NullVer, m05ArbKid.Version == 1), "C05.decode-version-stated-by-the-text")
 	for _, n := range s05Required {
 		vAssert(m05ArbPresent[n], "C05.decode-required-present:"+n)
 	}
@@ -315,6 +319,9 @@ func h05NativeText() string {
 		"prins": k.Principals, "transID": k.TransID, "reqUser": k.ReqUser, "reqIP": k.ReqIP, "reqHost": k.ReqHost,
 		"isFirefighter": k.IsFirefighter, "isHWKey": k.IsHWKey, "isHeadless": k.IsHeadless, "isNonce": k.IsNonce,
 		"usage": int(k.Usage), "touchPolicy": int(k.TouchPolicy), "ver": k.Version,
+	}
+	if m05NullVer {
+		all["ver"] = nil
 	}
 	out := map[string]any{}
 	for n, v := range all {
